@@ -1069,12 +1069,20 @@ def criteria_parser(criteria):
        asterisk, type a tilde (~) preceding the character.
     """
 
-    if is_number(criteria):
+    if isinstance(criteria, bool):
+        # a logical matches that logical only
+
+        def check(x):
+            return isinstance(x, bool) and x == criteria
+
+    elif is_number(criteria):
         # numeric equals comparision
         criteria = coerce_to_number(criteria)
 
         def check(x):
-            return is_number(x) and coerce_to_number(x) == criteria
+            # a logical is not a number
+            return (not isinstance(x, bool) and is_number(x) and
+                    coerce_to_number(x) == criteria)
 
     elif isinstance(criteria, str):
         match = OPERATORS_RE.match(criteria)
@@ -1095,8 +1103,8 @@ def criteria_parser(criteria):
             value = coerce_to_number(value)
 
             def check(x):
-                if isinstance(x, str) or x is None:
-                    # string always compare False unless '!='
+                if isinstance(x, (str, bool)) or x is None:
+                    # string and logical always compare False unless '!='
                     return op == operator.ne
                 else:
                     return op(x, value)
